@@ -6,18 +6,11 @@ import WnVerif.Model.Graph
 namespace WnVerif.Ic
 open WnVerif.Graph
 
-/-- the agenda walk of `compute` (after the fix: one `seen` set per word synset):
-a stack, successors pushed in `hypernyms()` order, popped from the end. -/
-def walk (g : Adj) : Nat → List Nat → List Nat → Option (List Nat)
-  | _, [], seen => some seen
-  | 0, _ :: _, _ => none
-  | fuel+1, x :: stack, seen =>
-    if seen.contains x then walk g fuel stack seen
-    else walk g fuel ((g x).reverse ++ stack) (x :: seen)
-
-/-- nodes that receive the weight of word-synset `s`: `s` and its ancestors, once each -/
-def touched (g : Adj) (fuel : Nat) (s : Nat) : List Nat :=
-  (walk g fuel [s] []).getD []
+/-- nodes that receive the weight of word-synset `s`: the agenda walk of `compute`
+(after the fix: one `seen` set per word synset) is the generic worklist walk with a
+stack discipline; `s` and its ancestors, once each. -/
+def touched (g : Adj) (n : Nat) (s : Nat) : List Nat :=
+  (walkGen pushStack g (walkFuel g n [s]) [s] []).getD []
 
 def icPos (p : String) : Option String :=
   if p == "s" then some "a"
@@ -36,23 +29,23 @@ def addNode (f : Nat → Rat) (i : Nat) (w : Rat) : Nat → Rat := fun j => if j
 def addTot (f : String → Rat) (p : String) (w : Rat) : String → Rat := fun q => if q == p then f q + w else f q
 
 /-- contribution of one word synset -/
-def addSynset (g : Adj) (fuel : Nat) (pos : Nat → String) (w : Rat) (fr : Freq) (s : Nat) : Freq :=
+def addSynset (g : Adj) (n : Nat) (pos : Nat → String) (w : Rat) (fr : Freq) (s : Nat) : Freq :=
   match icPos (pos s) with
   | none => fr
   | some p =>
-    { node := (touched g fuel s).foldl (fun f i => addNode f i w) fr.node
+    { node := (touched g n s).foldl (fun f i => addNode f i w) fr.node
       total := addTot fr.total p w }
 
 /-- one distinct corpus word with its count and `wordnet.synsets(word)` -/
-def addWord (g : Adj) (fuel : Nat) (pos : Nat → String) (distribute : Bool)
+def addWord (g : Adj) (n : Nat) (pos : Nat → String) (distribute : Bool)
     (fr : Freq) (wc : Nat × List Nat) : Freq :=
   let (count, syns) := wc
   if syns.isEmpty then fr else
   let w : Rat := if distribute then (count : Rat) / (syns.length : Rat) else (count : Rat)
-  syns.foldl (addSynset g fuel pos w) fr
+  syns.foldl (addSynset g n pos w) fr
 
-def compute (g : Adj) (fuel : Nat) (pos : Nat → String) (distribute : Bool) (smoothing : Rat)
+def compute (g : Adj) (n : Nat) (pos : Nat → String) (distribute : Bool) (smoothing : Rat)
     (words : List (Nat × List Nat)) : Freq :=
-  words.foldl (addWord g fuel pos distribute) (Freq.init smoothing)
+  words.foldl (addWord g n pos distribute) (Freq.init smoothing)
 
 end WnVerif.Ic
